@@ -1,7 +1,7 @@
 import PsV.Model.Alloc
 import PsV.Driver.Common
 /-! Driver for C19: evaluates `estimate`, `readEvents`, `convolveEvents`, `peak` on the file description the
-    harness prints.  Line: `C objsize ndim n cdim doconv nauxK naux {order nknots naxes}*ndim {keylen vallen storedlen}*naux`.
+    harness prints (plus the destructor's releases, the level after them, and the peak an arena with 16-byte blocks sees).  Line: `C objsize ndim n cdim doconv nauxK naux {order nknots naxes}*ndim {keylen vallen storedlen}*naux`.
     A file whose shape the reader's (generated) validation refuses answers `rejected`: the call sites are then not
     executed to the end and the event model does not apply. -/
 namespace PsV.Driver.C19
@@ -34,9 +34,12 @@ def handle (ws : List String) : String :=
           let r := readEvents p
           let c := if doconv = 1 then convolveEvents p else []
           let all := r ++ c
+          -- the destructor runs on the shape the table has then
+          let d := destroyEvents p (if doconv = 1 then convDims p else p.dims)
+          let life := all ++ d
           let pdef : Params := { p with objsize := PsV.Generated.C19.sizeofSplinetable }
-          s!"est {estimate p} estdef {estimate pdef} peak {peak all} live {liveAfter 0 all} ev{showEvents r} |{showEvents c}" ++
-            (if balanced 0 all then "" else " UNBALANCED")
+          s!"est {estimate p} estdef {estimate pdef} peak {peak all} live {liveAfter 0 all} pad16 {peak (padEvents 16 all)} end {liveAfter 0 life} ev{showEvents r} |{showEvents c} |{showEvents d}" ++
+            (if balanced 0 life then "" else " UNBALANCED")
         | _ => "bad-input"
       | none => "bad-input"
     | _ => "bad-input"
